@@ -6,9 +6,9 @@
 EXTENDS D_RateConv, TLC
 CONSTANTS P, Ratio, WD, RD, CmdVals, ChunkVals, FinVals, Bug, DriveM2S, DriveS2M
 R == INSTANCE R_RateConv
-BurstsTwo == {<<0, 1>>, <<1, 0>>}          \* enough to see a swapped or repeated chunk
+BurstsTwo == {[i \in 1 .. Ratio |-> i % 2], [i \in 1 .. Ratio |-> (i \div 2) % 2]}     \* ratio 2: <<1,0>>, <<0,1>>: enough to see a swapped or repeated chunk
 BurstsAll == [1 .. Ratio -> ChunkVals]
-FinTwo == {[d |-> <<0, 1>>, v |-> 0], [d |-> <<1, 0>>, v |-> 1]}
+FinTwo == {[d |-> [i \in 1 .. Ratio |-> i % 2], v |-> 0], [d |-> [i \in 1 .. Ratio |-> (i \div 2) % 2], v |-> 1]}
 FinFour == [d : BurstsTwo, v : {0, 1}]
 FinAll == [d : BurstsAll, v : {0, 1}]
 Cfg == [ratio |-> Ratio, P |-> P, ser |-> 1, des |-> 2, wd |-> WD, rd |-> RD, csidle |-> 1]
